@@ -292,7 +292,10 @@ fn run_children(what: &str, args: &Args, dir: &PathBuf, nproc: u64, extra: &[Str
     let mut outs = vec![];
     for p in 1..=nproc {
         let out = dir.join(format!("child{}.ndjson", p));
-        let mut cmd = std::process::Command::new(&exe);
+        // the LAST child of a keygen history runs pinned to one CPU (a process that sees a single core: behaviour that branches on
+        // the available parallelism); without `taskset` it runs like the others
+        let pin = what == "c15" && p == nproc && std::path::Path::new("/usr/bin/taskset").exists();
+        let mut cmd = if pin { let mut c = std::process::Command::new("/usr/bin/taskset"); c.arg("-c").arg("0").arg(&exe); c } else { std::process::Command::new(&exe) };
         cmd.arg(what).arg("--seed").arg(args.get_or("--seed", "1")).arg("--tier").arg(args.get_or("--tier", "quick"))
             .arg("--proc").arg(p.to_string()).arg("--child-out").arg(&out);
         for e in extra {
